@@ -27,11 +27,41 @@ Theorem C04_partial :
 Proof. exact c04_object. Qed.
 Print Assumptions C04_partial.
 
+(* ... and the fragment is exact: a compiled object reads back as declared IF
+   AND ONLY IF every property lies in [rt_ok]. So [rt_ok] is not "what could be
+   proved" but the precise extent of the property on the model, and the list of
+   refutations below is complete: what is missing from the full statement is
+   exactly the complement of [rt_ok]. *)
+Theorem C04_exact :
+  forall env ds os,
+    write_object env ds = Ok os ->
+    (read_object env os = Ok (norm_object env ds) <-> forallb rt_ok ds = true).
+Proof. exact c04_object_exact. Qed.
+Print Assumptions C04_exact.
+
+Theorem C04_property_exact :
+  forall env idx d o,
+    write_prop env idx d = Ok o ->
+    (read_prop env o = Ok (norm_prop env idx d) <-> rt_ok d = true).
+Proof. exact c04_prop_exact. Qed.
+Print Assumptions C04_property_exact.
+
 Theorem C04_property :
   forall env idx d o,
     rt_ok d = true -> write_prop env idx d = Ok o -> read_prop env o = Ok (norm_prop env idx d).
 Proof. exact c04_prop. Qed.
 Print Assumptions C04_property.
+
+(* second clause (the printed .proto text): reflection sees a field only through
+   [c04_proj] (name, number, kind, label, optional keyword, the three annotations,
+   the key annotation, the comment). If print + parse preserves that view of
+   every field — which the correspondence checks for every generated object, and
+   which is C05's theorem to prove — the text reflects to the same schema. *)
+Theorem C04_text_clause : forall env os os',
+  Forall2 (fun o o' => c04_proj o = c04_proj o') os os' ->
+  read_object env os' = read_object env os.
+Proof. exact c04_text_clause. Qed.
+Print Assumptions C04_text_clause.
 
 (* names and order are those declared; proto paths are [1], [2], ... *)
 Theorem C04_names_order : forall env ds,
